@@ -66,6 +66,18 @@ func trackClosed(t []ref.Event) bool { return len(t) > 0 && t[len(t)-1].IsEOT() 
 // It returns the value, the model of what a subsequent write must produce (tracks
 // auto-closed, format promoted), and a description of any op-level disagreement.
 func (h *APIHist) Build() (s *smf.SMF, m *Model, mismatch string) {
+	// a panic inside a builder call of the library is reported, not propagated
+	defer func() {
+		if p := recover(); p != nil {
+			mismatch = fmt.Sprintf("a builder call panicked: %v (intermediate)", p)
+			if m == nil {
+				m = &Model{}
+			}
+			if s == nil {
+				s = smf.New()
+			}
+		}
+	}()
 	switch h.Ctor {
 	case 1:
 		s = smf.NewSMF1()
